@@ -135,6 +135,11 @@ class _Simplification:
 GS = {'sym': sym, 'simplify': simplify_contract, 'Simplification': _Simplification, 'pmbl': pmbl}
 GSYM = {n: C[n] for n in ('IntLiteral', 'Sum', 'Product', 'Quotient', 'LoopRange')}
 GSYM['pmbl'] = pmbl
+GSYM['Range'] = C['Range'] if 'Range' in C else None
+# members of the range classes that the model does not define are loaded from the real class statements
+for _cn in ('LoopRange', 'Range', 'RangeIndex'):
+    if _cn in C:
+        C[_cn].source = (SYMF, _cn, GSYM)
 
 
 def _mk_range(with_step):
